@@ -19,6 +19,8 @@ def plan(tier, seed):
         nm2 = 'ScatLayerj2_rot_f' if rot else 'ScatLayerj2_f'
         gs.append(Group('%s.backward' % nm2, S.g_scat_j2_backward, (rot,), functions=[(SLk, nm2 + '.forward'), (SLk, nm2 + '.backward')],
                         replay=rp('scat_grad', order=2, biort='near_sym_b_bp' if rot else 'near_sym_a')))
+        gs.append(Group('%s[combine_colour]' % nm2, S.g_scat_j2_colour, (rot,), functions=[(SLk, nm2 + '.forward'), (SLk, nm2 + '.backward')],
+                        replay=rp('scat_grad', order=2, colour=True, biort='near_sym_b_bp' if rot else 'near_sym_a')))
     # inverse stages with the analysis filters are the transposes of the forward stages (C06 obligations)
     for cls in ('FWD_J1', 'FWD_J2PLUS'):
         gs.append(Group('%s.backward[o=1-style layout]' % cls, D.g_function_adjoint, (cls, 1, 5), functions=[(TFk, cls + '.backward')]))
@@ -42,7 +44,7 @@ def plan(tier, seed):
             'proved in kernel mode, and views / slices checked as index maps; (ii) the inverse stage is called with the ANALYSIS filters (tree a/b swapped at level 2), which is the transpose of the '
             'forward stage by the C06 obligations (filter identities: TABLE obligations of C18)',
             'finite gradient for b > 0: every factor is re/r or im/r with r >= b > 0, |re/r| <= 1 (lemma); no other division occurs',
-            'the colour-combining variant of the second-order layer: bounded tier only'],
-        'explanation': 'real forward + real backward of SmoothMagFn, ScatLayerj1_f(_rot) (both colour settings) and ScatLayerj2_f(_rot) executed on z3 Real terms; cotangent obligations per inverse stage; '
+            ],
+        'explanation': 'real forward + real backward of SmoothMagFn, ScatLayerj1_f(_rot) and ScatLayerj2_f(_rot) (both colour settings) executed on z3 Real terms; cotangent obligations per inverse stage; '
                        'lemmas for the elementwise derivative and the pooling transpose; finite differences on the real layers underneath',
     }
